@@ -7,6 +7,8 @@ import shutil
 import subprocess
 import tarfile
 
+import numpy as np
+
 from vf import core
 from vf import runner_util as ru
 from vf.core import CaseResult
@@ -16,7 +18,8 @@ LEVEL = "exploration"
 ENGINE = "R"
 TECHNIQUE = "differential: the same generated runcard solved in two fresh processes with different PYTHONHASHSEED / cwd / TMPDIR; byte comparison of every archive member"
 RULE = (
-    "Generated tiny runcards (1-3 targets, fixed and threshold-crossing paths, LO/NLO, QCD and QED, 2-3 point grids). Each "
+    "Generated tiny runcards (1-5 targets, fixed and threshold-crossing paths, in half of the cases also the initial point "
+    "itself and / or a point exactly on a matching scale as targets (zero-length pieces), LO/NLO, QCD and QED, 2-3 point grids). Each "
     "is solved twice in fresh sub-processes with different PYTHONHASHSEED values (drawn), different working directories "
     "and different TMPDIR. The two tar archives must have the same member names and, for every regular file (operators, "
     "errors, part and recipe headers, cards, metadata), byte-identical content; tar mtimes / ownership are not part of the "
@@ -55,6 +58,20 @@ def strategy(tier):
             base["deg"] = 1
         if qed:
             base["mugrid"] = base["mugrid"][:2]
+        # zero-length pieces: a target equal to the initial point and / or a target exactly on a matching scale
+        extra = draw(st.integers(0, 3))
+        if extra in (1, 3):
+            base["mugrid"] = [list(base["init"])] + base["mugrid"][: 2 if qed else 3]
+        if extra in (2, 3):
+            import math
+
+            q = draw(st.integers(0, 1))
+            w2 = (base["ratios"][q] ** 2) * (base["masses"][q] ** 2)
+            w = math.sqrt(w2)
+            for cand in (w, float(np.nextafter(w, 0.0)), float(np.nextafter(w, 1e9))):
+                if cand * cand == w2:
+                    w = cand
+            base["mugrid"] = base["mugrid"][: 2 if qed else 3] + [[float(w), 3 + q + draw(st.integers(0, 1))]]
         if any(n < base["init"][1] for _, n in base["mugrid"]) and base["inv"] is None:
             base["inv"] = "expanded"
         walls = ru.walls_of(base)
